@@ -1,6 +1,7 @@
 import PyAirtouch.Util.Hex
 import PyAirtouch.Model.Crc
 import PyAirtouch.Model.SockValidate
+import PyAirtouch.Model.SockXValidate
 import PyAirtouch.Model.Heartbeat
 import PyAirtouch.Model.Codecs
 import PyAirtouch.Model.CodecsWF
@@ -104,7 +105,7 @@ def answerPure (ws : List String) : String :=
 def answer (st : DState) (ws : List String) : DState × String :=
   match ws with
   | "vt-begin" :: _ | "vl" :: _ | "vs" :: _ | "vt-end" :: _ =>
-    let (v, out) := Model.SockValidate.vLine st.vs ws
+    let (v, out) := Model.SockValidate.vLineX st.vs ws   -- `vl cancel <hid>`: label `cancel` of `Sock.stepX`
     ({ st with vs := v }, out)
   | ["api-new", "5"] => ({ st with apiGen := 5, api5 := Model.ApiCmd5.fresh }, "ok")     -- [API5]
   | ["api-new", "4"] => ({ st with apiGen := 4, api4 := {} }, "ok")                        -- [API4]
